@@ -133,10 +133,42 @@ theorem hist_rooms : (st 0).rooms 100 hist := by
   rw [step6] at hs; cases hs
   refine ⟨trivial, fun r' b hs => ?_⟩
   rw [step7] at hs; cases hs
-  refine ⟨⟨linOK_x0 rfl, linOK_const _ ⟨by decide, by decide⟩, fun l n' h => noSlack 8 _ x0 c5 l n' (by rfl) h⟩, fun r' b hs => ?_⟩
+  refine ⟨⟨linOK_x0 rfl, linOK_const _ ⟨by decide, by decide⟩⟩, fun r' b hs => ?_⟩
   rw [step8] at hs; cases hs
-  refine ⟨⟨linOK_x0 rfl, linOK_const _ ⟨by decide, by decide⟩, fun l n' h => noSlack 9 _ x0 c7 l n' (by rfl) h⟩, fun r' b hs => ?_⟩
+  refine ⟨⟨linOK_x0 rfl, linOK_const _ ⟨by decide, by decide⟩⟩, fun r' b hs => ?_⟩
   exact rooms_of_noRoom 100 _ (by
+    intro op hop r
+    simp only [List.mem_cons, List.not_mem_nil, or_false] at hop
+    rcases hop with rfl | rfl | rfl | rfl | rfl | rfl | rfl | rfl | rfl <;> trivial) _
+
+theorem noSlacks_of_trivial (fuel : Nat) : ∀ (ops : List NetOp), (∀ op ∈ ops, ∀ r : NetRun, r.noSlack op) →
+    ∀ r : NetRun, r.noSlacks fuel ops
+  | [], _, _ => trivial
+  | op :: ops, h, r => ⟨h op List.mem_cons_self r, fun r' _ _ =>
+      noSlacks_of_trivial fuel ops (fun o ho => h o (List.mem_cons_of_mem _ ho)) r'⟩
+
+/-- no LRA request of the history creates a slack variable -/
+theorem hist_noSlacks : (st 0).noSlacks 100 hist := by
+  refine ⟨trivial, fun r' b hs => ?_⟩
+  rw [step0] at hs; cases hs
+  refine ⟨trivial, fun r' b hs => ?_⟩
+  rw [step1] at hs; cases hs
+  refine ⟨trivial, fun r' b hs => ?_⟩
+  rw [step2] at hs; cases hs
+  refine ⟨trivial, fun r' b hs => ?_⟩
+  rw [step3] at hs; cases hs
+  refine ⟨trivial, fun r' b hs => ?_⟩
+  rw [step4] at hs; cases hs
+  refine ⟨trivial, fun r' b hs => ?_⟩
+  rw [step5] at hs; cases hs
+  refine ⟨trivial, fun r' b hs => ?_⟩
+  rw [step6] at hs; cases hs
+  refine ⟨trivial, fun r' b hs => ?_⟩
+  rw [step7] at hs; cases hs
+  refine ⟨fun l n' h => noSlack 8 _ x0 c5 l n' (by rfl) h, fun r' b hs => ?_⟩
+  rw [step8] at hs; cases hs
+  refine ⟨fun l n' h => noSlack 9 _ x0 c7 l n' (by rfl) h, fun r' b hs => ?_⟩
+  exact noSlacks_of_trivial 100 _ (by
     intro op hop r
     simp only [List.mem_cons, List.not_mem_nil, or_false] at hop
     rcases hop with rfl | rfl | rfl | rfl | rfl | rfl | rfl | rfl | rfl <;> trivial) _
@@ -152,7 +184,7 @@ theorem final_ok : NetOK (st 19) ∧
     (st 19).n.sat.decisionLevel = 0 ∧ (st 19).orig.length = 15 ∧ (st 19).n.sat.dead = false ∧
     (st 19).n.lra.vAsrts.map (·.1) = [7, 8] ∧ (st 19).n.sat.value ⟨8, true⟩ = some false ∧
     (st 19).n.idl.varDists.map (·.b) = [1, 2, 3, 4, 5] :=
-  ⟨(steps_ok hist ⟨Net.init, []⟩ (st 19) netOK_init (guards_noRows hist _ (by decide) hist_rooms) hist_rooms run_all).1,
+  ⟨(steps_ok hist ⟨Net.init, []⟩ (st 19) netOK_init (guards_noRows hist _ (by decide) hist_noSlacks) hist_rooms run_all).1,
     by decide, by decide, by decide, by decide, by decide, by decide, by decide⟩
 
 end NetEx2
